@@ -341,6 +341,13 @@ class FaultOracle(Oracle):
                 raise run.violation("nonfinite_not_rejected", gi, exc_type=type(exc).__name__, exc=str(exc)[:200], **ctx)
             if exp["raise"]["why"] == "tolerance_exceeded":
                 run.probes["tolerance_exceeded"] += 1
+                if len(run.trace["groups"]) == 1:
+                    # the caller catches the tolerance error and keeps training: the streak is not forgotten, so every further
+                    # failing refresh of that block raises again until a fully successful one (single-group traces only: a
+                    # raise in one group leaves the later groups of that step unprocessed, which the step counters of the
+                    # model do not follow)
+                    run.resume_after_raise = True
+                    run.probes["resumed_after_tolerance_error"] += 1
                 if self.mask_changed_since_failure.get(gi):
                     run.probes["tolerance_exceeded_after_mask_change"] += 1
             if exp["raise"]["type"] == "PreconditionerValueError":
